@@ -214,7 +214,9 @@ class HistoryRunner:
                 for i in range(17):
                     try:
                         got.append(q.measure(inplace=(i < 16), store_array=False))
-                    except RuntimeError:
+                    except RuntimeError as e:
+                        if i < 16:
+                            raise Failure("meas-overflow:rejected-early", self.case(), f"register-stored measurement {i + 1} of 17 in one subroutine was rejected ({str(e)[:80]}); there are 16 M registers")
                         rejected = True
                         break
                 if not rejected:
